@@ -1,4 +1,5 @@
 import ZV.Proofs.C05
+import ZV.Proofs.C05ListTop
 /-!
   C05 — revocation entries of v2 revocation lists: the reason-code synthesis rule and the CRL-number rule of
   `x509.CreateRevocationList`, on the model `ZV.Model.C05` whose entry encoder and parser are tied to the Go code
@@ -213,5 +214,84 @@ theorem crl_number_roundtrip (n : Int) (h : crlNumberOk n = true) :
   simp [someElem, Res.bind, parseBigInt_encBigInt]
 
 example : crlNumberOk (2 ^ 159 - 1) = true := by decide
+
+/-! ### list level: `CreateRevocationList` → `ParseRevocationList` (model `ZV.Model.C05List`, T2 ops `c05 rlist`, `c05 rlp`) -/
+
+/-- **UTCTime / GeneralizedTime choice**: a time is written as UTCTime exactly for the years 1950..2049 and as
+    GeneralizedTime for the other years 0..9999; a year outside 0..9999 is refused. -/
+theorem time_choice (t : GoTime) (tb : Bytes) (h : encTimeG t = .ok tb) :
+    (1950 ≤ t.year ∧ t.year < 2050 ∧ tb = writeTLV 0x17 (Time.utcText t)) ∨
+    ((t.year < 1950 ∨ 2050 ≤ t.year) ∧ 0 ≤ t.year ∧ t.year ≤ 9999 ∧ tb = writeTLV 0x18 (Time.genText t)) :=
+  encTimeG_eq t tb h
+
+/-- **update / revocation time round trip**: the element written for a time (forced to UTC) is read back by the
+    cryptobyte `parseTime` (time.Parse + re-serialisation test, century restored for UTCTime) as the same second. -/
+theorem list_time_roundtrip (t : GoTime) (tb rest : Bytes) (h : encTimeG (utc t) = .ok tb) :
+    parseTimeCB (tb ++ rest) = .ok (secOf t, rest) := (parseTimeCB_encTimeG t tb rest h).1
+
+/-- 2049-12-31T23:59:59Z (UTCTime), 2050-01-01T00:00:00Z (GeneralizedTime), year 10000 (refused) -/
+example : (encTimeG ⟨2524607999, 0, 0⟩).isOk = true ∧ (encTimeG ⟨2524608000, 0, 0⟩).isOk = true ∧
+    encTimeG ⟨253402300800, 0, 0⟩ = .err := by decide
+
+/-- **entry round trip with the real time parser**: `parseEntryT (encEntryT e) = e` (serial, second, normalised
+    reason, the synthesised extension list itself) for every entry of the decidable domain `EntryT.okT`. -/
+theorem entryT_roundtrip (e : EntryT) (bs rest : Bytes) (h : encEntryT e = .ok bs) (hok : e.okT = true)
+    (hlen : bs.length < 2147483648) :
+    parseEntryT (bs ++ rest) = .ok (⟨bs, e.serial, secOf e.time, normReason e.reason, e.synth.map triple⟩, rest) := by
+  obtain ⟨tb, h1, h2, h3⟩ := encEntryT_eq h
+  subst h2
+  have := writeTLV_length_ge 0x30 (entryBodyT e tb)
+  exact parseEntryT_build e tb rest h1 h3 hok (by omega)
+
+/-- the guards of `CreateRevocationList`: a list is created only for an issuer with the crlSign bit and a subject
+    key id, `NextUpdate` not before `ThisUpdate`, and a non-nil number below 2^159 in absolute value. -/
+theorem create_guards (sigAI : Bytes) (iss : IssuerC) (t : RLTmpl) (tbs : Bytes) (h : createTBS sigAI iss t = .ok tbs) :
+    iss.crlSign = true ∧ iss.ski.isEmpty = false ∧ before t.nextUpdate t.thisUpdate = false ∧
+      ∃ n, t.number = some n ∧ n.natAbs < 2 ^ 159 := by
+  obtain ⟨n, _, _, hn, hok, _⟩ := createTBS_eq h
+  unfold createTBS at h
+  split at h
+  · cases h
+  split at h
+  · cases h
+  split at h
+  · cases h
+  rename_i c1 c2 c3
+  exact ⟨by simpa using c1, by simpa using c2, by simpa using c3, n, hn, (crl_number_rule n).mp hok⟩
+
+/-- **revlist_roundtrip**: for every template, issuer, signature AlgorithmIdentifier and signature for which the model
+    of `CreateRevocationList` succeeds — inside the decidable domain `RLDom` (entries in `EntryT.okT`; list-level extras
+    that do not repeat authorityKeyIdentifier / cRLNumber), with an AlgorithmIdentifier `parseAI` accepts and an issuer
+    subject `parseName` accepts — the model of `ParseRevocationList` accepts the DER and reports: the TBS bytes, the
+    signature bits, the issuer's subject bytes verbatim, `ThisUpdate` and `NextUpdate` to the second in UTC (`NextUpdate`
+    absent iff it was the zero time), every entry in order (raw bytes, serial, revocation second, normalised reason, its
+    extension list), the template's `Number`, the AKI built from the issuer's subject key id, and the list-level
+    extensions AKI, number, extras in order. -/
+theorem revlist_roundtrip (sigAI : Bytes) (iss : IssuerC) (t : RLTmpl) (sig der : Bytes)
+    (h : createRL sigAI iss t sig = .ok der) (hai : aiOk sigAI = true) (hiss : issuerOk iss.subject = true)
+    (hdom : RLDom t = true) (hlen : der.length < 2147483648) :
+    ∃ n tbs alg, t.number = some n ∧ createTBS sigAI iss t = .ok tbs ∧
+      parseRL der = .ok ⟨tbs, alg, sig, iss.subject, secOf t.thisUpdate, t.parsedNext, t.parsedEntries, some n,
+        some (buildAKI iss.ski), (listExts iss n t).map triple⟩ := by
+  obtain ⟨n, tbs, alg, a, _, b, c⟩ := parseRL_createRL sigAI iss t sig der h hai hiss hdom hlen
+  exact ⟨n, tbs, alg, a, b, c⟩
+
+/-- Ed25519 AlgorithmIdentifier, issuer "CN=zv CA ed25519, O=ZV", thisUpdate 2049-12-31T23:59:59Z, nextUpdate
+    2050-01-01T00:00:00Z, number 2^159-1, one entry (negative serial, 1950-01-01T00:00:00Z, reason 1, a critical extra and a
+    user-supplied reasonCode extension), one list-level extra -/
+def sampleAI : Bytes := [0x30, 0x05, 0x06, 0x03, 0x2b, 0x65, 0x70]
+def sampleIssuer : IssuerC :=
+  ⟨[0x30, 0x25, 0x31, 0x16, 0x30, 0x14, 0x06, 0x03, 0x55, 0x04, 0x03, 0x13, 0x0d, 0x7a, 0x76, 0x20, 0x43, 0x41, 0x20, 0x65, 0x64, 0x32,
+    0x35, 0x35, 0x31, 0x39, 0x31, 0x0b, 0x30, 0x09, 0x06, 0x03, 0x55, 0x04, 0x0a, 0x13, 0x02, 0x5a, 0x56], [1, 2, 3, 4, 7], true⟩
+def sampleTmpl : RLTmpl :=
+  ⟨⟨2524607999, 0, 5⟩, ⟨2524608000, 0, 0⟩, some (2 ^ 159 - 1),
+   [⟨-300, ⟨-631152000, 0, 0⟩, some 1, [⟨[2, 5, 29, 24], true, [0x18, 0]⟩, ⟨reasonOID, false, [0x0a, 0x01, 0x09]⟩]⟩],
+   [⟨[1, 3, 9999, 7], false, [1]⟩]⟩
+
+set_option maxRecDepth 100000 in
+example : (createRL sampleAI sampleIssuer sampleTmpl [0xab, 0xcd]).isOk = true ∧ aiOk sampleAI = true ∧
+    issuerOk sampleIssuer.subject = true ∧ RLDom sampleTmpl = true ∧
+    (match createRL sampleAI sampleIssuer sampleTmpl [0xab, 0xcd] with | .ok der => decide (der.length < 2147483648) | _ => false) = true ∧
+    sampleTmpl.entries.all EntryT.okT = true := by decide
 
 end ZV.C05
